@@ -8,7 +8,9 @@ go result / model result per op:
   add, size, wm : the model computes what the Go code must print (exact diff)
   cfgd          : the option accessors (zero / negative field -> documented default) against cfg_of_options
   wire          : real Writer on the real Transport over synchronous pipes to a wire-level fake broker that
-                  stalls mid-request; judged like e2e but only by the order / limits / log predicates
+                  stalls mid-request; judged like e2e but only by the order / limits / log predicates; the
+                  `census` scenarios (kafka.NewWriter: the writer owns its Transport) check after Close that the
+                  transport's goroutines and connections are gone: go = LEAK:<what> otherwise
   prr, pr       : Client.Produce's mapping of a produce response (error code -> Error, Throttle, BaseOffset,
                   LogAppendTime, LogStartOffset, RecordErrors) against produce_error / make_time_ms of the
                   model; prr sweeps ALL 65536 error codes on every run
@@ -159,6 +161,10 @@ def failures_of_case(c):
             out.append(("C09", "property", "Close did not return within the watchdog", None))
         elif go.startswith("HANG"):
             out.append(("C09", "property", f"a blocked operation did not return within the watchdog ({go})", None))
+        elif go.startswith("LEAK:"):
+            out.append(("C09", "property",
+                        "after Writer.Close returned, goroutines / connections of the writer's own Transport are still alive "
+                        "(connPool.discover, conn.run, open sockets or late requests; the counts are in the case's go result LEAK:…)", None))
         elif go.startswith("ANOMALY:record-attrs"):
             out.append(("C01", "property", "a record received by the broker differs from the submitted message with that identity "
                         "(key / timestamp / headers)", None))
@@ -200,7 +206,7 @@ def relevant(prop, c):
     if op == "cfgd":
         return prop == "C08"
     if op == "wire":
-        return prop == "C07"
+        return prop == "C07" or (prop == "C09" and "census" in c["feats"].split(","))
     if op == "wm":
         return prop in ("C08", "C07", "C01")
     return False
@@ -217,7 +223,7 @@ def nontrivial(c):
     if c["op"] == "cfgd":
         return "zero-fields=0" not in c["feats"]
     if c["op"] == "wire":
-        return "stall" in c["feats"]
+        return "stall" in c["feats"] or "census" in c["feats"]
     if c["op"] == "pr":
         return c["feats"] not in ("code-zero", "")
     if c["op"] != "e2e":
